@@ -17,3 +17,13 @@ class Prop(RefProp):
             'argument recorded exactly (dyadic rationals). Monitor: reference interpreter: attempts, '
             'propagated error, exact sleep schedule (interval [jrc*d, d] for jittered strategies)')
     trusted_base = EngineProp.engine_trusted
+
+    def generate(self, rng, n, tier):
+        import gen_pipes
+        cases = []
+        for _ in range(n):
+            case = gen_pipes.gen_case(rng, self.profile)
+            if rng.random() < 0.05:
+                gen_pipes.retry_in_loop(rng, case)
+            cases.append(case)
+        return cases
